@@ -9,165 +9,677 @@ from ..core import src, AnalysisError, parent
 from .. import units as U
 from ..resolve import inline_locals, expand
 from .. import ispace as I
-from ..ispace import IS, Ctx, OTHER, eta_grid_tag, G, L, arr
+from ..ispace import IS, Ctx, OTHER, eta_grid_tag, G
 from .. import lints
-from .C01 import geometry_check
+from .C01 import geometry_check, clone, xsrc
 from .C03 import init_buffer, gather_geometry
+
+Q_INIT = "Layout.__init__"
+
+# symbols of the per-axis computation: extent n, process count p, table index k (0..p), this rank's coordinate R
+_n = sp.Symbol("n", integer=True, positive=True)
+_p = sp.Symbol("p", integer=True, positive=True)
+_k = sp.Symbol("k", integer=True, nonnegative=True)
+_R = sp.Symbol("R", integer=True, nonnegative=True)
+_q = sp.Symbol("q", integer=True, nonnegative=True)      # n // p
+_r = sp.Symbol("r", integer=True, nonnegative=True)      # n % p   (0 <= r < p)
+
+
+def nf(e):
+    """normal form of an integer expression in n, p: n is written q*p + r with 0 <= r < p, integer parts are pulled out of floors"""
+    e = sp.sympify(e).subs(_n, _q * _p + _r)
+    for _ in range(3):
+        e = e.replace(lambda x: isinstance(x, sp.floor), lambda x: sp.floor(sp.expand(x.args[0])))
+        e = e.subs(sp.floor(_r / _p), 0)
+    return sp.expand(e)
+
+
+def same(a, b):
+    try:
+        return sp.simplify(nf(a) - nf(b)) == 0
+    except Exception:
+        return False
+
+
+def clearly_different(a, b):
+    """the two integer expressions are different functions for a reason the analysis can state: the difference is a non-zero
+    expression without floors (a polynomial), or one of them is built with min/max (another distribution of the remainder)"""
+    try:
+        d = sp.simplify(nf(a) - nf(b))
+    except Exception:
+        return False
+    if d == 0:
+        return False
+    if not d.has(sp.floor) and not d.has(sp.ceiling):
+        return True
+    # the special case `p divides n` (r = 0) is a legitimate configuration: a difference that is a non-zero polynomial there is a difference
+    try:
+        d0 = sp.simplify(d.subs(_r, 0))
+        if d0 != 0 and not d0.has(sp.floor) and not d0.has(sp.ceiling) and not d0.has(sp.Min, sp.Max):
+            return True
+    except Exception:
+        pass
+    return bool((nf(a).has(sp.Min, sp.Max)) != (nf(b).has(sp.Min, sp.Max)))
+
+
+class Tab:
+    """a table indexed by k = 0 .. length-1 with entry expr(k)"""
+
+    def __init__(self, expr, length):
+        self.expr, self.length = expr, length
+
+    def at(self, i):
+        return self.expr.subs(_k, i)
+
+    def __repr__(self):
+        return f"[{self.expr} for k < {self.length}]"
+
+
+class Vec:
+    """a per-axis array: `expr` is the entry of the generic axis"""
+
+    def __init__(self, expr):
+        self.expr = expr
+
+
+class Unknown(Exception):
+    pass
+
+
+class WrongForm(Exception):
+    pass
+
+
+class SplitModel:
+    """symbolic elaboration of Layout.__init__: which formula fills the per-axis block table and what every stored attribute
+    is in terms of that table (no value is computed: the entries are sympy expressions in n, p, k, R)"""
+
+    def __init__(self, fn):
+        self.fn = fn
+        self.float_ops = []
+        self.loop = None
+        self.axis = None
+        self.env = {}          # local name -> value (sympy / Tab / tuple)
+        self.defs = {}         # local name -> defining statement (loop body)
+        self.sinks = {}        # 'mpi_starts' | 'mpi_lengths' | 'starts' | 'ends' | 'shape' | 'max_shape' -> (value, node)
+        self.after = {}        # attribute -> (value, node) assigned after the loop
+        self.problems = []     # (what, message) extraction failures
+        self.table = None      # (name, Tab, node)
+        self.lists = {}        # expression source -> role 'n' | 'p' | 'R'  (per-axis lists known before the loop)
+        self._find_lists()
+        self._find_loop()
+        if self.loop is not None:
+            self._run_body()
+            self._run_after()
+
+    # ---------------------------------------------------------------- per-axis lists defined before the loop
+    def _find_lists(self):
+        fn = self.fn
+        env = inline_locals(fn)
+        self.pad = {}      # role -> (ok, bad, node)
+        for role, target, source, fill in (("p", "self._nprocs", "nprocs", 1), ("R", "myRanks", "myRank", 0)):
+            ok, bad, node = None, None, fn
+            asg = [n for n in ast.walk(fn) if isinstance(n, ast.Assign) and len(n.targets) == 1 and src(n.targets[0]) == target]
+            if asg:
+                node = asg[0]
+                v = expand(asg[0].value, {k: w for k, w in env.items() if k != target})
+                vs = src(v).replace(" ", "")
+                # (the constructor asserts len(nprocs) == len(myRank))
+                padlen = tuple(f"{a}-len({b})" for a in ("self._ndims", "len(dims_order)") for b in ("nprocs", "myRank"))
+                # (b) one expression: the given entries followed by the fill value
+                for pl in padlen:
+                    for f_ in (fill, 1 - fill):
+                        forms = (f"list({source})+[{f_}]*({pl})", f"list({source})+({pl})*[{f_}]", f"[*{source}]+[{f_}]*({pl})",
+                                 f"list({source})+[{f_}for_inrange({pl})]")
+                        if vs in forms:
+                            if f_ == fill:
+                                ok = True
+                            else:
+                                bad = self._fill_diag(role, target, f_)
+                # (a) filled with the fill value, then the leading entries overwritten in a loop over the given list
+                for f_ in (fill, 1 - fill):
+                    if vs in (f"[{f_}]*self._ndims", f"self._ndims*[{f_}]", f"[{f_}]*len(dims_order)"):
+                        lp = [n for n in ast.walk(fn) if isinstance(n, ast.For) and isinstance(n.iter, ast.Call)
+                              and src(n.iter.func) in ("enumerate", "range")]
+                        for l_ in lp:
+                            jv = xv = None
+                            if src(l_.iter.func) == "enumerate" and src(l_.iter.args[0]) in (source, "nprocs", "myRank") \
+                                    and isinstance(l_.target, ast.Tuple) and len(l_.target.elts) == 2:
+                                jv, xv = src(l_.target.elts[0]), src(l_.target.elts[1])
+                                it = src(l_.iter.args[0])
+                            elif src(l_.iter.func) == "range" and src(l_.iter).replace(" ", "") in ("range(len(nprocs))", "range(len(myRank))"):
+                                jv, it = src(l_.target), None
+                            else:
+                                continue
+                            for st in l_.body:
+                                if isinstance(st, ast.Assign) and src(st.targets[0]).replace(" ", "") == f"{target}[{jv}]":
+                                    val = src(st.value).replace(" ", "")
+                                    if val == f"{source}[{jv}]" or (it == source and val == xv):
+                                        if f_ == fill:
+                                            ok = True
+                                        else:
+                                            bad = self._fill_diag(role, target, f_)
+            self.pad[role] = (ok, bad, node)
+            self.lists[target] = role
+        self.lists["self._full_shape"] = "n"
+        fs = [n for n in ast.walk(fn) if isinstance(n, ast.Assign) and len(n.targets) == 1 and src(n.targets[0]) == "self._full_shape"]
+        self.full_shape_node = fs[0] if fs else None
+
+    @staticmethod
+    def _fill_diag(role, target, f_):
+        if role == "p":
+            return (f"the axes that are not distributed get {f_} process(es) in `{target}`: an undistributed axis is one block owned by one "
+                    "process (count 1); with 0 the block table divides by zero")
+        return (f"the axes that are not distributed get the coordinate {f_} in `{target}`: their single block is block 0, coordinate {f_} "
+                "reads the table one entry too far")
+
+    # ---------------------------------------------------------------- the per-axis loop
+    def _find_loop(self):
+        fn = self.fn
+        cands = []
+        for n in fn.body:
+            if isinstance(n, ast.For) and any(isinstance(x, ast.Attribute) and src(x) in ("self._mpi_starts", "self._starts") for x in ast.walk(n)):
+                cands.append(n)
+        if len(cands) != 1:
+            self.problems.append(("loop", f"{len(cands)} per-axis loops filling self._starts / self._mpi_starts found in Layout.__init__ (1 expected)"))
+            return
+        lp = cands[0]
+        it, tg = lp.iter, lp.target
+        env = {}
+        if isinstance(it, ast.Call) and src(it.func) == "enumerate" and len(it.args) == 1 and isinstance(tg, ast.Tuple) and len(tg.elts) == 2 \
+                and isinstance(tg.elts[0], ast.Name):
+            self.axis = tg.elts[0].id
+            inner, el = it.args[0], tg.elts[1]
+            if isinstance(inner, ast.Call) and src(inner.func) == "zip" and isinstance(el, ast.Tuple) and len(el.elts) == len(inner.args):
+                pairs = list(zip(inner.args, el.elts))
+            else:
+                pairs = [(inner, el)]
+            for lst, var in pairs:
+                role = self.lists.get(src(lst))
+                if role is None or not isinstance(var, ast.Name):
+                    self.problems.append(("loop", f"the loop runs over `{src(lst)}`, which is not one of the per-axis lists the rule knows"))
+                    return
+                env[var.id] = {"n": _n, "p": _p, "R": _R}[role]
+        elif isinstance(it, ast.Call) and src(it.func) == "range" and len(it.args) == 1 and isinstance(tg, ast.Name) \
+                and src(it.args[0]).replace(" ", "") in ("self._ndims", "len(dims_order)", "len(self._nprocs)", "len(self._dims_order)"):
+            self.axis = tg.id
+        else:
+            self.problems.append(("loop", f"loop header `for {src(tg)} in {src(it)}` not recognised"))
+            return
+        self.loop, self.env = lp, env
+
+    # ---------------------------------------------------------------- expressions
+    def ev(self, e):
+        ax = self.axis
+        if isinstance(e, ast.Constant) and isinstance(e.value, int) and not isinstance(e.value, bool):
+            return sp.Integer(e.value)
+        if isinstance(e, ast.Name):
+            if e.id in self.env:
+                return self.env[e.id]
+            raise Unknown(f"name `{e.id}`")
+        s = src(e).replace(" ", "")
+        if s in (f"len(eta_grids[dims_order[{ax}]])", f"len(eta_grids[self._dims_order[{ax}]])", f"self._full_shape[{ax}]"):
+            return _n
+        if s == f"len(eta_grids[{ax}])":
+            raise WrongForm(f"`{src(e)}` is the extent of DIMENSION {ax}, the block table of layout axis {ax} needs the extent of the dimension "
+                            f"carried by that axis, len(eta_grids[dims_order[{ax}]])")
+        if s == f"self._nprocs[{ax}]":
+            return _p
+        if s == f"myRanks[{ax}]":
+            return _R
+        if s in (f"self._starts[{ax}]", f"self._ends[{ax}]", f"self._shape[{ax}]", f"self._max_shape[{ax}]"):
+            key = s.split("[")[0][len("self._"):]
+            if key in self.sinks:
+                return self.sinks[key][0]
+            raise Unknown(f"`{src(e)}` read before it is stored")
+        if isinstance(e, ast.UnaryOp) and isinstance(e.op, ast.USub):
+            return -self.ev(e.operand)
+        if isinstance(e, ast.BinOp):
+            a, b = self.ev(e.left), self.ev(e.right)
+            return self.binop(e, a, b)
+        if isinstance(e, ast.IfExp):
+            return sp.Piecewise((self.scalar(self.ev(e.body)), self.cond(e.test)), (self.scalar(self.ev(e.orelse)), True))
+        if isinstance(e, ast.Subscript):
+            base = self.ev(e.value)
+            if isinstance(base, Tab):
+                sl = e.slice
+                if isinstance(sl, ast.Slice):
+                    if sl.step is not None:
+                        raise Unknown(f"strided slice `{src(e)}`")
+                    lo = self.scalar(self.ev(sl.lower)) if sl.lower is not None else sp.Integer(0)
+                    hi = self.scalar(self.ev(sl.upper)) if sl.upper is not None else base.length
+                    if lo.is_negative:
+                        lo = base.length + lo
+                    if hi.is_negative:
+                        hi = base.length + hi
+                    return Tab(base.expr.subs(_k, _k + lo), sp.expand(hi - lo))
+                return base.at(self.scalar(self.ev(sl)))
+            if isinstance(base, tuple):
+                i = self.ev(e.slice)
+                if i.is_Integer:
+                    return base[int(i)]
+            raise Unknown(f"subscript `{src(e)}`")
+        if isinstance(e, ast.Tuple):
+            return tuple(self.ev(x) for x in e.elts)
+        if isinstance(e, ast.Call):
+            f = src(e.func)
+            args = e.args
+            if f in ("np.arange", "numpy.arange", "range") and 1 <= len(args) <= 2 and not e.keywords:
+                lo = self.scalar(self.ev(args[0])) if len(args) == 2 else sp.Integer(0)
+                hi = self.scalar(self.ev(args[-1]))
+                return Tab(_k + lo, sp.expand(hi - lo))
+            if f in ("np.array", "numpy.array", "np.asarray", "list", "tuple") and len(args) == 1:
+                return self.ev(args[0])
+            if f in ("np.diff", "numpy.diff") and len(args) == 1 and not e.keywords:
+                t = self.ev(args[0])
+                if isinstance(t, Tab):
+                    return Tab(sp.expand(t.expr.subs(_k, _k + 1) - t.expr), t.length - 1)
+            if f == "divmod" and len(args) == 2:
+                a, b = self.scalar(self.ev(args[0])), self.scalar(self.ev(args[1]))
+                return (sp.floor(a / b), a - b * sp.floor(a / b))
+            if f in ("min", "max", "np.minimum", "np.maximum") and len(args) == 2:
+                a, b = self.ev(args[0]), self.ev(args[1])
+                op = sp.Min if "min" in f else sp.Max
+                if isinstance(a, Tab) or isinstance(b, Tab):
+                    a, b, ln = self.align(a, b)
+                    return Tab(op(a, b), ln)
+                return op(a, b)
+            if f in ("int", "np.floor", "math.floor", "np.trunc") and len(args) == 1:
+                v = self.ev(args[0])
+                self.float_ops.append(src(e)[:50])
+                return Tab(sp.floor(v.expr), v.length) if isinstance(v, Tab) else sp.floor(v)
+            if f in ("float", "np.float64") and len(args) == 1:
+                self.float_ops.append(src(e)[:50])
+                return self.ev(args[0])
+            if f in ("np.ceil", "math.ceil") and len(args) == 1:
+                v = self.ev(args[0])
+                self.float_ops.append(src(e)[:50])
+                return Tab(sp.ceiling(v.expr), v.length) if isinstance(v, Tab) else sp.ceiling(v)
+            if f in ("np.round", "round", "np.rint") and len(args) == 1:
+                self.float_ops.append(src(e)[:50])
+                raise Unknown(f"rounding `{src(e)[:40]}`")
+            if isinstance(e.func, ast.Attribute) and e.func.attr == "astype" and len(args) == 1:
+                v = self.ev(e.func.value)
+                self.float_ops.append(src(e)[:50])
+                return Tab(sp.floor(v.expr), v.length) if isinstance(v, Tab) else sp.floor(v)
+            if f == "len" and len(args) == 1:
+                t = self.ev(args[0])
+                if isinstance(t, Tab):
+                    return t.length
+        raise Unknown(f"expression `{src(e)[:50]}`")
+
+    def scalar(self, v):
+        if isinstance(v, (Tab, tuple, Vec)) or v is None:
+            raise Unknown("a table where a number is expected")
+        return v
+
+    def align(self, a, b):
+        if isinstance(a, Tab) and isinstance(b, Tab):
+            if sp.simplify(a.length - b.length) != 0:
+                raise Unknown(f"tables of different lengths combined ({a.length} and {b.length})")
+            return a.expr, b.expr, a.length
+        if isinstance(a, Tab):
+            return a.expr, self.scalar(b), a.length
+        return self.scalar(a), b.expr, b.length
+
+    def binop(self, e, a, b):
+        if isinstance(a, Tab) or isinstance(b, Tab):
+            x, y, ln = self.align(a, b)
+            return Tab(self.arith(e, x, y), ln)
+        return self.arith(e, self.scalar(a), self.scalar(b))
+
+    def arith(self, e, a, b):
+        op = e.op
+        if isinstance(op, ast.Add):
+            return a + b
+        if isinstance(op, ast.Sub):
+            return a - b
+        if isinstance(op, ast.Mult):
+            return a * b
+        if isinstance(op, ast.FloorDiv):
+            return sp.floor(a / b)
+        if isinstance(op, ast.Mod):
+            return a - b * sp.floor(a / b)
+        if isinstance(op, ast.Div):
+            self.float_ops.append(f"true division `{src(e)[:50]}`")
+            return a / b
+        raise Unknown(f"operator in `{src(e)[:40]}`")
+
+    def cond(self, t):
+        if isinstance(t, ast.Compare) and len(t.ops) == 1:
+            a, b = self.scalar(self.ev(t.left)), self.scalar(self.ev(t.comparators[0]))
+            op = t.ops[0]
+            rel = {ast.Gt: sp.Gt, ast.Lt: sp.Lt, ast.GtE: sp.Ge, ast.LtE: sp.Le, ast.Eq: sp.Eq, ast.NotEq: sp.Ne}.get(type(op))
+            if rel:
+                return rel(a, b)
+        raise Unknown(f"condition `{src(t)[:40]}`")
+
+    # ---------------------------------------------------------------- statements of the loop body
+    def _run_body(self):
+        ax = self.axis
+        for st in self.loop.body:
+            if isinstance(st, ast.Expr) and isinstance(st.value, ast.Constant):
+                continue
+            try:
+                if isinstance(st, ast.Assign) and len(st.targets) == 1:
+                    t = st.targets[0]
+                    if isinstance(t, ast.Name):
+                        self.defs[t.id] = st
+                        n0 = len(self.float_ops)
+                        v = self.ev(st.value)
+                        self.env[t.id] = v
+                        continue
+                    if isinstance(t, ast.Tuple) and all(isinstance(x, ast.Name) for x in t.elts):
+                        for x in t.elts:
+                            self.defs[x.id] = st
+                        v = self.ev(st.value)
+                        if not (isinstance(v, tuple) and len(v) == len(t.elts)):
+                            raise Unknown(f"tuple assignment `{src(st)[:50]}`")
+                        for x, w in zip(t.elts, v):
+                            self.env[x.id] = w
+                        continue
+                    ts = src(t).replace(" ", "")
+                    for key in ("starts", "ends", "shape", "max_shape"):
+                        if ts == f"self._{key}[{ax}]":
+                            self.sinks[key] = (self.ev(st.value), st)
+                            break
+                    else:
+                        self.problems.append(("stmt", f"store `{src(st)[:60]}` not modelled"))
+                    continue
+                if isinstance(st, ast.Expr) and isinstance(st.value, ast.Call) and isinstance(st.value.func, ast.Attribute) \
+                        and st.value.func.attr == "append" and len(st.value.args) == 1:
+                    who = src(st.value.func.value)
+                    if who in ("self._mpi_starts", "self._mpi_lengths"):
+                        self.sinks[who[len("self._"):]] = (self.ev(st.value.args[0]), st)
+                        continue
+                self.problems.append(("stmt", f"statement `{src(st)[:60]}` not modelled"))
+            except Unknown as u:
+                nm = src(st.targets[0]) if isinstance(st, ast.Assign) else src(st)[:40]
+                self.problems.append((nm, f"`{src(st)[:70]}`: {u} is outside the fragment the rule can read"))
+            except WrongForm as w:
+                self.problems.append(("wrong", str(w)))
+                self.wrong = getattr(self, "wrong", []) + [(st, str(w))]
+        # the table: the Tab of length p+1 the stored slices were cut from
+        for nm, v in self.env.items():
+            if isinstance(v, Tab) and nm in self.defs and v.expr.has(_n):
+                # the table the stored slices are cut from: the last such definition that a sink reads
+                used = any(any(isinstance(x, ast.Name) and x.id == nm for x in ast.walk(st)) for _, st in self.sinks.values())
+                if used or self.table is None:
+                    self.table = (nm, v, self.defs[nm])
+
+    # ---------------------------------------------------------------- statements after the loop (per-axis arrays)
+    def _run_after(self):
+        fn = self.fn
+        idx = fn.body.index(self.loop)
+        vec = {}
+        for key in ("starts", "ends", "shape", "max_shape"):
+            if key in self.sinks and not isinstance(self.sinks[key][0], (Tab, tuple)):
+                vec[f"self._{key}"] = Vec(self.sinks[key][0])
+
+        def evv(e):
+            s = src(e)
+            if s in vec:
+                return vec[s]
+            if isinstance(e, ast.Name) and e.id in vec:
+                return vec[e.id]
+            if isinstance(e, ast.BinOp) and isinstance(e.op, (ast.Sub, ast.Add)):
+                a, b = evv(e.left), evv(e.right)
+                if isinstance(a, Vec) and isinstance(b, Vec):
+                    return Vec(a.expr - b.expr if isinstance(e.op, ast.Sub) else a.expr + b.expr)
+            if isinstance(e, ast.Call) and src(e.func) in ("tuple", "list", "np.array", "np.asarray") and len(e.args) == 1:
+                return evv(e.args[0])
+            if isinstance(e, ast.Call) and src(e.func) in ("np.prod", "numpy.prod") and len(e.args) == 1:
+                a = evv(e.args[0])
+                if isinstance(a, Vec):
+                    return ("prod", a.expr)
+            if isinstance(e, ast.Call) and isinstance(e.func, ast.Attribute) and e.func.attr == "prod" and not e.args:
+                a = evv(e.func.value)
+                if isinstance(a, Vec):
+                    return ("prod", a.expr)
+            return None
+        for st in fn.body[idx + 1:]:
+            if isinstance(st, ast.Assign) and len(st.targets) == 1:
+                t = st.targets[0]
+                v = evv(st.value)
+                if isinstance(t, ast.Name):
+                    if v is not None:
+                        vec[t.id] = v
+                    else:
+                        vec.pop(t.id, None)
+                elif isinstance(t, ast.Attribute) and src(t).startswith("self._"):
+                    self.after[src(t)] = (v, st)
+                    if isinstance(v, Vec):
+                        vec[src(t)] = v
+                    else:
+                        vec.pop(src(t), None)
+        self.vec = vec
 
 
 def split_formula(chk):
-    fn = chk.func(U.LAYOUT, "Layout.__init__")
-    loops = [n for n in fn.body if isinstance(n, ast.For) and src(n.iter).replace(" ", "") == "enumerate(self._nprocs)"]
-    if len(loops) != 1:
-        raise AnalysisError("C02: per-axis loop `for i, nRanks in enumerate(self._nprocs)` not found in Layout.__init__")
-    lp = loops[0]
-    axis_var, p_var = (e.id for e in lp.target.elts)
-    env = {}
-    for st in lp.body:
-        if isinstance(st, ast.Assign) and isinstance(st.targets[0], ast.Name):
-            env[st.targets[0].id] = st
-    for need in ("starts",):
-        if need not in env:
-            raise AnalysisError("C02: per-axis table `starts` not found")
-    n, p, k = sp.symbols("n p k", integer=True, positive=True)
-
+    """-> SplitModel of Layout.__init__ (the rules P2-integer-arithmetic, P2-table-shape, P2-partition-endpoints, P2-balanced-form)"""
+    fn = chk.func(U.LAYOUT, Q_INIT)
+    m = SplitModel(fn)
+    kw = dict(file=U.LAYOUT, func=Q_INIT)
+    if m.loop is None or m.table is None:
+        why = "; ".join(msg for _, msg in m.problems) or "no table of p+1 block boundaries is computed in the per-axis loop"
+        wrong = getattr(m, "wrong", [])
+        chk.pat("P2-partition-endpoints", wrong[0][0] if wrong else fn, "starts = <table of p+1 block boundaries>", False, "",
+                wrong[0][1] if wrong else None, **kw)
+        if not wrong:
+            chk.obs[-1].msg = "the block table of Layout.__init__ could not be read: " + why
+        return m
+    name, T, node = m.table
     # ---- integer-only arithmetic (exactness for all n, p must not depend on rounding)
-    def deps(name, seen):
-        if name in seen or name not in env:
-            return
-        seen.add(name)
-        for x in ast.walk(env[name].value):
-            if isinstance(x, ast.Name):
-                deps(x.id, seen)
-    chain = set()
-    deps("starts", chain)
+    chain, todo = set(), [name]
+    while todo:
+        x = todo.pop()
+        if x in chain or x not in m.defs:
+            continue
+        chain.add(x)
+        todo += [y.id for y in ast.walk(m.defs[x].value) if isinstance(y, ast.Name)]
     bad = []
     for nm in sorted(chain):
-        for x in ast.walk(env[nm].value):
+        for x in ast.walk(m.defs[nm].value):
             if isinstance(x, ast.BinOp) and isinstance(x.op, ast.Div):
-                bad.append(f"true division in `{nm} = {src(env[nm].value)}`")
-            if isinstance(x, ast.Call) and (src(x.func) in ("float", "np.floor", "np.round", "round", "np.rint", "np.ceil") or
+                bad.append(f"true division in `{nm} = {src(m.defs[nm].value)}`")
+            if isinstance(x, ast.Call) and (src(x.func) in ("float", "np.floor", "np.round", "round", "np.rint", "np.ceil", "int", "math.floor") or
                                             (isinstance(x.func, ast.Attribute) and x.func.attr == "astype")):
                 bad.append(f"float round-trip `{src(x)[:50]}` in `{nm}`")
-    chk.ob("P2-integer-arithmetic", env["starts"], src(env["starts"]), not bad,
+    bad = list(dict.fromkeys(bad))
+    chk.ob("P2-integer-arithmetic", node, src(node), not bad,
            "the block table is computed with integer operators only (//, %, *, +): exact for every extent and process count"
            if not bad else "; ".join(bad) + " - the table depends on floating-point rounding: for some (n, p) a start index "
-           "truncates one too low (gap at the last rank / blocks differing by two)", file=U.LAYOUT, func="Layout.__init__")
+           "truncates one too low (gap at the last rank / blocks differing by two)", **kw)
+    # ---- the table has p+1 entries for the extent of the dimension carried by the axis
+    wrong = getattr(m, "wrong", [])
+    dl = sp.simplify(T.length - (_p + 1))
+    okshape = dl == 0 and T.expr.has(_n) and not wrong
+    badshape = wrong[0][1] if wrong else None
+    if badshape is None and dl != 0 and dl.is_number:
+        badshape = (f"the table has {T.length} entries: p blocks have p+1 boundaries (one start per rank plus the end of the last block); "
+                    "the end of the last rank's block / the last length is read beyond the table")
+    chk.pat("P2-table-shape", node, "ranks = arange(0, p+1); n = len(eta_grids[dims_order[i]])", okshape,
+            "the table has p+1 entries (one boundary per rank plus the end) for the extent of the dimension at axis i", badshape, **kw)
+    E = T.expr
+    e0, ep = nf(E.subs(_k, 0)), nf(E.subs(_k, _p))
+    ok0, okp = e0 == 0, sp.simplify(ep - nf(_n)) == 0
 
-    # ---- symbolic form of starts(k)
-    def sym(e):
-        if isinstance(e, ast.Name):
-            if e.id == p_var:
-                return p
-            if e.id == "ranks":
-                return k
-            if e.id == "n":
-                return n
-            if e.id in env:
-                return sym(env[e.id].value)
-            raise KeyError(e.id)
-        if isinstance(e, ast.Constant) and isinstance(e.value, int):
-            return sp.Integer(e.value)
-        if isinstance(e, ast.BinOp):
-            a, b = sym(e.left), sym(e.right)
-            if isinstance(e.op, ast.Add):
-                return a + b
-            if isinstance(e.op, ast.Sub):
-                return a - b
-            if isinstance(e.op, ast.Mult):
-                return a * b
-            if isinstance(e.op, ast.FloorDiv):
-                return sp.floor(a / b)
-            if isinstance(e.op, ast.Mod):
-                return a - b * sp.floor(a / b)
-            if isinstance(e.op, ast.Div):
-                return a / b
-        if isinstance(e, ast.Call) and isinstance(e.func, ast.Attribute) and e.func.attr == "astype":
-            return sp.floor(sym(e.func.value))
-        raise KeyError(src(e))
-    # ranks = arange(0, p+1)  and  n = len(eta_grids[dims_order[i]])
-    rk = env.get("ranks")
-    ok_r = rk is not None and src(rk.value).replace(" ", "") in (f"np.arange(0,{p_var}+1)", f"np.arange({p_var}+1)")
-    nn = env.get("n")
-    ok_n = nn is not None and src(nn.value).replace(" ", "") == f"len(eta_grids[dims_order[{axis_var}]])"
-    chk.ob("P2-table-shape", rk or lp, "ranks = arange(0, p+1); n = len(eta_grids[dims_order[i]])", ok_r and ok_n,
-           "the table has p+1 entries (one boundary per rank plus the end) for the extent of the dimension at axis i"
-           if ok_r and ok_n else f"ranks ok={ok_r}, extent ok={ok_n}", file=U.LAYOUT, func="Layout.__init__")
-    try:
-        E = sym(env["starts"].value)
-    except KeyError as e:
-        chk.ob("P2-partition-endpoints", env["starts"], src(env["starts"]), None, f"formula not in the recognised fragment ({e})",
-               file=U.LAYOUT, func="Layout.__init__")
-        return lp, env
-    e0 = sp.simplify(E.subs(k, 0))
-    ep = sp.simplify(E.subs(k, p))
-    ok0 = e0 == 0
-    okp = sp.simplify(ep - n) == 0
-    chk.ob("P2-partition-endpoints", env["starts"], "starts[0] == 0", ok0, "the first block starts at 0" if ok0 else
-           f"starts[0] normalises to {e0}", file=U.LAYOUT, func="Layout.__init__")
-    chk.ob("P2-partition-endpoints", env["starts"], "starts[p] == n", okp, "the last block ends at n (no gap, no overshoot)" if okp else
-           f"starts[p] normalises to {ep}, not n: the blocks do not tile [0, n)", file=U.LAYOUT, func="Layout.__init__")
-    q = sp.floor(n / p)
-    r = n - p * q
-    forms = [q * k + sp.floor(r * k / p), sp.floor(n * k / p)]
-    bal = any(sp.simplify(sp.expand(E - f)) == 0 for f in forms)
-    chk.ob("P2-balanced-form", env["starts"], src(env["starts"].value), bal if bal else None,
+    def closed(x):
+        return not x.has(sp.floor) and not x.has(sp.ceiling)
+    chk.pat("P2-partition-endpoints", node, "starts[0] == 0", ok0, "the first block starts at 0",
+            None if ok0 or not closed(e0) else f"starts[0] normalises to {e0}: the first block does not start at index 0", **kw)
+    chk.pat("P2-partition-endpoints", node, "starts[p] == n", okp, "the last block ends at n (no gap, no overshoot)",
+            None if okp or not closed(ep) else f"starts[p] normalises to {ep.subs({_q * _p + _r: _n})}, not n = q*p + r: the blocks do not tile [0, n)",
+            **kw)
+    forms = [_q * _k + sp.floor(_r * _k / _p)]
+    bal = any(sp.simplify(nf(E) - f) == 0 for f in forms)
+    chk.ob("P2-balanced-form", node, src(node.value), bal if bal else None,
            "starts(k) = floor(n/p) k + floor((n mod p) k / p): consecutive differences are floor(n/p) or floor(n/p)+1 "
            "(monotone, lengths differ by at most one)" if bal else
-           f"starts(k) = {E} is not one of the recognised balanced forms", file=U.LAYOUT, func="Layout.__init__")
-    return lp, env
+           f"starts(k) = {E} is not one of the recognised balanced forms", **kw)
+    return m
 
 
-def table_structure(chk, lp, env):
-    t = src(lp).replace(" ", "").replace("\n", ";")
-    ax = lp.target.elts[0].id
-    checks = [
-        ("self._mpi_starts.append(starts[:-1])", "per-rank starts are the first p table entries"),
-        ("self._mpi_lengths.append(starts[1:]-starts[:-1])", "per-rank lengths are consecutive differences (telescoping: contiguous, no overlap)"),
-        (f"self._starts[{ax}]=starts[myRanks[{ax}]]", "this rank's start is the table entry of its own coordinate"),
-        (f"self._ends[{ax}]=starts[myRanks[{ax}]+1]", "this rank's end is the next table entry (same table as the start)"),
-        (f"self._shape[{ax}]=self._ends[{ax}]-self._starts[{ax}]", "local extent = end - start"),
-    ]
-    for frag, what in checks:
-        ok = frag in t
-        chk.ob("P2-one-table", lp, frag, ok, what if ok else f"`{frag}` not found: starts/ends/lengths are no longer slices of one table",
-               file=U.LAYOUT, func="Layout.__init__")
-    mx = [n for n in lp.body if isinstance(n, ast.Assign) and src(n.targets[0]).replace(" ", "") == f"self._max_shape[{ax}]"]
-    okm = False
-    if mx and isinstance(mx[0].value, ast.IfExp):
-        v = mx[0].value
-        big = env.get("big_size")
-        okm = src(v.test).replace(" ", "") in ("nBig>0", "nBig!=0", "0<nBig") and src(v.body) == "big_size" and src(v.orelse) == "small_size" \
-            and big is not None and src(big.value).replace(" ", "") in ("small_size+1", "1+small_size") \
-            and src(env["small_size"].value).replace(" ", "") == "n//nRanks" and src(env["nBig"].value).replace(" ", "") == "n%nRanks"
-    chk.ob("P2-max-block", mx[0] if mx else lp, "max_block_shape = floor(n/p)+1 if n mod p > 0 else floor(n/p)", okm,
-           "the advertised maximum block length is the length of the largest block" if okm else
-           "max_block_shape is not ceil(n/p)", file=U.LAYOUT, func="Layout.__init__")
-    fn = chk.func(U.LAYOUT, "Layout.__init__")
-    tt = src(fn).replace(" ", "").replace("\n", ";")
-    for frag, what in (("self._size=np.prod(self._shape)", "size = product of the local extents"),
-                       ("self._max_size=np.prod(self._max_shape)", "max block size = product of the maximal extents"),
-                       ("self._full_shape=tuple([len(eta_grids[i])foriindims_order])", "full shape lists the global extents in layout order"),
-                       ("fori,jinenumerate(self._dims_order):;self._inv_dims_order[j]=i", "inv_dims_order is the inverse permutation of dims_order"),
-                       ("forj,ninenumerate(nprocs):;self._nprocs[j]=n;myRanks[j]=myRank[j]", "leading axes take the process counts and this rank's coordinates; the others are undistributed")):
-        ok = frag in tt.replace(";;", ";")
-        chk.ob("P2-derived-attributes", fn, frag[:70], ok, what if ok else f"`{frag}` not found", file=U.LAYOUT, func="Layout.__init__")
+def _cmp(chk, rule, node, construct, got, want, good, what, **kw):
+    """three-valued comparison of an extracted symbolic value with what the table prescribes"""
+    if got is None:
+        chk.ob(rule, node, construct, None, f"{what} could not be read from Layout.__init__ (statement rewritten?)", **kw)
+        return
+    if same(got, want):
+        chk.ob(rule, node, construct, True, good, **kw)
+    elif clearly_different(got, want):
+        chk.ob(rule, node, construct, False,
+               f"{what} is `{got}` but the block table prescribes `{want}`: this rank's starts/ends/shape and the per-rank tables "
+               "(mpi_starts/mpi_lengths, used by every transpose to cut and place blocks) describe different partitions", **kw)
+    else:
+        chk.ob(rule, node, construct, None, f"{what} is `{got}`, which could not be compared with the table entry `{want}`", **kw)
+
+
+def table_structure(chk, m):
+    fn = chk.func(U.LAYOUT, Q_INIT)
+    kw = dict(file=U.LAYOUT, func=Q_INIT)
+    if m.loop is not None and m.table is not None:
+        name, T, node = m.table
+        lp = m.loop
+
+        def tab_sink(key, want_expr, construct, good):
+            v, st = m.sinks.get(key, (None, lp))
+            if not isinstance(v, Tab):
+                chk.ob("P2-one-table", st, construct, None,
+                       f"self._{key} entry not read from the loop body" + ("".join("; " + msg for k_, msg in m.problems if key in k_)), **kw)
+                return
+            if sp.simplify(v.length - _p) != 0:
+                okl = False
+                chk.ob("P2-one-table", st, construct, False if sp.simplify(v.length - _p).is_number else None,
+                       f"the per-rank table self._{key}[axis] has {v.length} entries, one per rank means p", **kw)
+                return
+            _cmp(chk, "P2-one-table", st, construct, v.expr, want_expr, good, f"entry k of self._{key}[axis]", **kw)
+        tab_sink("mpi_starts", T.expr, "self._mpi_starts.append(starts[:-1])", "per-rank starts are the first p table entries")
+        tab_sink("mpi_lengths", T.expr.subs(_k, _k + 1) - T.expr, "self._mpi_lengths.append(starts[1:] - starts[:-1])",
+                 "per-rank lengths are consecutive differences (telescoping: contiguous, no overlap)")
+        for key, want, construct, good in (
+                ("starts", T.at(_R), "self._starts[i] = starts[myRanks[i]]", "this rank's start is the table entry of its own coordinate"),
+                ("ends", T.at(_R + 1), "self._ends[i] = starts[myRanks[i] + 1]", "this rank's end is the next table entry (same table as the start)")):
+            v, st = m.sinks.get(key, (None, lp))
+            _cmp(chk, "P2-one-table", st, construct, None if isinstance(v, (Tab, tuple)) else v, want, good, f"self._{key}[axis]", **kw)
+        # local extent = end - start (stored per axis in the loop, or as the difference of the two arrays afterwards)
+        shp = None
+        st = lp
+        if "shape" in m.sinks:
+            shp, st = m.sinks["shape"]
+        elif isinstance(m.after.get("self._shape", (None,))[0], Vec):
+            shp, st = m.after["self._shape"][0].expr, m.after["self._shape"][1]
+        _cmp(chk, "P2-one-table", st, "self._shape[i] = self._ends[i] - self._starts[i]", shp, T.at(_R + 1) - T.at(_R),
+             "local extent = end - start", "the local extent self._shape[axis]", **kw)
+        # advertised maximum block length = length of the largest block = ceil(n/p)
+        mx, st = m.sinks.get("max_shape", (None, lp))
+        okm, badm = None, None
+        if mx is not None and not isinstance(mx, (Tab, tuple)):
+            g = nf(mx)
+            good_forms = [sp.Piecewise((_q + 1, _r > 0), (_q, True)), _q + sp.ceiling(_r / _p), _q - sp.floor(-_r / _p),
+                          _q + sp.floor(_r / _p - 1 / _p) + 1, sp.Piecewise((_q, sp.Eq(_r, 0)), (_q + 1, True)),
+                          sp.Piecewise((_q + 1, sp.Ne(_r, 0)), (_q, True)), sp.Piecewise((_q + 1, _r >= 1), (_q, True))]
+            if any(g == f or sp.simplify(g - f) == 0 for f in good_forms):
+                okm = True
+            elif sp.simplify(g - _q) == 0:
+                badm = ("max_block_shape is floor(n/p): when n is not a multiple of p the largest block has floor(n/p)+1 points, the padded "
+                        "exchange blocks and the buffers sized from max_block_shape are one slab too small")
+            elif sp.simplify(g - _q - 1) == 0:
+                badm = ("max_block_shape is floor(n/p)+1 even when p divides n: it no longer is the length of the largest block, so the "
+                        "'no padding' tests and the buffer sizes disagree with the partition")
+        chk.pat("P2-max-block", st, "max_block_shape = floor(n/p)+1 if n mod p > 0 else floor(n/p)", okm,
+                "the advertised maximum block length is the length of the largest block", badm, **kw)
+    else:
+        chk.ob("P2-one-table", fn, "starts/ends/lengths/shape are slices and differences of one table", None,
+               "the block table could not be read (see P2-partition-endpoints)", **kw)
+    # ---- attributes derived after the loop
+    def after_prod(attr, vec_key, what):
+        v, st = m.after.get(attr, (None, fn)) if m.loop is not None else (None, fn)
+        want = None
+        if m.loop is not None and m.table is not None:
+            if vec_key == "shape":
+                # the stored local extents (their agreement with the table is P2-one-table's subject)
+                if "shape" in m.sinks and not isinstance(m.sinks["shape"][0], (Tab, tuple)):
+                    want = m.sinks["shape"][0]
+                elif isinstance(m.after.get("self._shape", (None,))[0], Vec):
+                    want = m.after["self._shape"][0].expr
+            elif "max_shape" in m.sinks and not isinstance(m.sinks["max_shape"][0], (Tab, tuple)):
+                want = m.sinks["max_shape"][0]
+        ok, bad = None, None
+        if isinstance(v, tuple) and v[0] == "prod" and want is not None:
+            if same(v[1], want):
+                ok = True
+            elif clearly_different(v[1], want) or (vec_key == "shape" and "max_shape" in m.sinks and same(v[1], m.sinks["max_shape"][0])):
+                bad = f"`{src(st)[:60]}` multiplies `{v[1]}` per axis, not {what}"
+        chk.pat("P2-derived-attributes", st, f"{attr} = np.prod(self._{vec_key})", ok, f"{attr[6:]} = product of {what}", bad, **kw)
+    after_prod("self._size", "shape", "the local extents")
+    after_prod("self._max_size", "max_shape", "the maximal extents")
+    # full shape lists the global extents in layout order
+    fs = m.full_shape_node
+    okf, badf = None, None
+    if fs is not None:
+        v = fs.value
+        while isinstance(v, ast.Call) and src(v.func) in ("tuple", "list") and len(v.args) == 1:
+            v = v.args[0]
+        if isinstance(v, (ast.ListComp, ast.GeneratorExp)) and len(v.generators) == 1 and not v.generators[0].ifs \
+                and isinstance(v.generators[0].target, ast.Name):
+            g = v.generators[0]
+            t, it, el = g.target.id, src(g.iter).replace(" ", ""), src(v.elt).replace(" ", "")
+            if it in ("dims_order", "self._dims_order") and el == f"len(eta_grids[{t}])":
+                okf = True
+            elif it in ("range(self._ndims)", "range(len(dims_order))") and el in (f"len(eta_grids[dims_order[{t}]])", f"len(eta_grids[self._dims_order[{t}]])"):
+                okf = True
+            elif it in ("eta_grids",) and el == f"len({t})" or (it.startswith("range(") and el == f"len(eta_grids[{t}])"):
+                badf = (f"`{src(fs)[:70]}` lists the extents in DIMENSION order (eta1, eta2, ...): fullShape must list them in the order of "
+                        "this layout's axes, len(eta_grids[d]) for d in dims_order")
+    chk.pat("P2-derived-attributes", fs or fn, "self._full_shape = tuple([len(eta_grids[i]) for i in dims_order])", okf,
+            "full shape lists the global extents in layout order", badf, **kw)
+    # inverse permutation
+    from ..core import contains
+    oki = contains(fn, "for i, j in enumerate(self._dims_order):\n    self._inv_dims_order[j] = i", vars=("i", "j")) or \
+        contains(fn, "for i, j in enumerate(dims_order):\n    self._inv_dims_order[j] = i", vars=("i", "j")) or \
+        contains(fn, "self._inv_dims_order = tuple(np.argsort(dims_order))") or contains(fn, "self._inv_dims_order = tuple(np.argsort(self._dims_order))") or \
+        contains(fn, "self._inv_dims_order = tuple([self._dims_order.index(i) for i in range(self._ndims)])", vars=("i",))
+    badi = None
+    if not oki and (contains(fn, "for i, j in enumerate(self._dims_order):\n    self._inv_dims_order[i] = j", vars=("i", "j")) or
+                    contains(fn, "for i, j in enumerate(dims_order):\n    self._inv_dims_order[i] = j", vars=("i", "j"))):
+        badi = "inv_dims_order[i] = dims_order[i] copies the ordering instead of inverting it (inverse: inv[dims_order[i]] = i)"
+    chk.pat("P2-derived-attributes", fn, "inv_dims_order[dims_order[i]] = i", oki, "inv_dims_order is the inverse permutation of dims_order",
+            badi, **kw)
+    okp = m.pad["p"][0] and m.pad["R"][0]
+    badp = m.pad["p"][1] or m.pad["R"][1]
+    chk.pat("P2-derived-attributes", m.pad["p"][2], "self._nprocs / myRanks padded to all axes", okp,
+            "leading axes take the process counts and this rank's coordinates; the others are undistributed (1 process, coordinate 0)",
+            badp, **kw)
     # accessor methods return the stored tables
     mod = chk.mod(U.LAYOUT)
+    stored = {"_starts", "_ends", "_shape", "_size", "_max_shape", "_max_size", "_full_shape", "_dims_order", "_inv_dims_order", "_nprocs",
+              "_mpi_starts", "_mpi_lengths", "_ranks"}
     for prop, attr in (("starts", "_starts"), ("ends", "_ends"), ("shape", "_shape"), ("size", "_size"),
                        ("max_block_shape", "_max_shape"), ("fullShape", "_full_shape"), ("dims_order", "_dims_order"),
-                       ("inv_dims_order", "_inv_dims_order"), ("nprocs", "_nprocs")):
-        f = mod.func(f"Layout.{prop}")
+                       ("inv_dims_order", "_inv_dims_order"), ("nprocs", "_nprocs"), ("mpi_starts", "_mpi_starts"), ("mpi_lengths", "_mpi_lengths")):
+        q = f"Layout.{prop}"
+        if not mod.has(q):
+            chk.ob("P2-accessor", mod.cls("Layout"), q, None, f"{q} does not exist any more", file=U.LAYOUT, func=q, nontrivial=False)
+            continue
+        f = mod.func(q)
+        env = inline_locals(f)
         rets = [n for n in ast.walk(f) if isinstance(n, ast.Return)]
-        ok = len(rets) == 1 and src(rets[0].value) == f"self.{attr}"
-        chk.ob("P2-accessor", f, f"Layout.{prop}", ok, f"returns self.{attr}" if ok else f"returns `{src(rets[0].value) if rets else '?'}`",
-               file=U.LAYOUT, func=f"Layout.{prop}", nontrivial=False)
-    for m, attr in (("mpi_starts", "_mpi_starts"), ("mpi_lengths", "_mpi_lengths")):
-        f = mod.func(f"Layout.{m}")
-        rets = [n for n in ast.walk(f) if isinstance(n, ast.Return)]
-        ok = len(rets) == 1 and src(rets[0].value) == f"self.{attr}[i]"
-        chk.ob("P2-accessor", f, f"Layout.{m}", ok, f"returns self.{attr}[i]" if ok else "returns another table", file=U.LAYOUT,
-               func=f"Layout.{m}", nontrivial=False)
+        want = f"self.{attr}" + ("[i]" if prop.startswith("mpi_") else "")
+        ok, bad = None, None
+        if len(rets) == 1 and rets[0].value is not None:
+            got = xsrc(rets[0].value, env)
+            arg = f.args.args[1].arg if prop.startswith("mpi_") and len(f.args.args) == 2 else "i"
+            if got == want.replace("[i]", f"[{arg}]"):
+                ok = True
+            else:
+                base = rets[0].value
+                while isinstance(base, ast.Subscript):
+                    base = base.value
+                if isinstance(base, ast.Attribute) and isinstance(base.value, ast.Name) and base.value.id == "self" and base.attr in stored \
+                        and base.attr != attr:
+                    bad = f"Layout.{prop} returns `{got}`, the table `self.{base.attr}`, not `self.{attr}`"
+        chk.pat("P2-accessor", f, q, ok, f"returns {want}", bad, file=U.LAYOUT, func=q, nontrivial=False)
 
 
 def grid_accessors(chk):
@@ -177,13 +689,20 @@ def grid_accessors(chk):
     n_obs = 0
     for m in ("getCoords", "getEta", "getCoordVals", "getGlobalIdxVals", "getGlobalIndices", "get2DSlice", "get1DSlice",
               "get2DSpline", "get1DSpline", "getSpline", "getMin", "getMax", "getBlockForFig", "writeH5Dataset", "loadFromFile"):
+        if not mod.has(f"Grid.{m}"):
+            chk.ob("C-sort", mod.cls("Grid"), f"Grid.{m}", None, f"Grid.{m} does not exist any more: its index-space typing cannot be done",
+                   file=U.GRID, func=f"Grid.{m}")
+            continue
         fn = chk.func(U.GRID, f"Grid.{m}")
         env = {a.arg: ("param", a.arg) for a in fn.args.args if a.arg != "self"}
         if fn.args.vararg:
             env[fn.args.vararg.arg] = OTHER
-        a = IS(chk, U.GRID, f"Grid.{m}", fn, env, Ctx(dist_dims=None), dict(attrs))
-        a.run()
-        n_obs += a.nobs
+        try:
+            a = IS(chk, U.GRID, f"Grid.{m}", fn, env, Ctx(dist_dims=None), dict(attrs))
+            a.run()
+            n_obs += a.nobs
+        except AnalysisError as e:
+            chk.ob("C-sort", fn, f"Grid.{m}", None, f"index-space typing of Grid.{m} cannot be done: {e}", file=U.GRID, func=f"Grid.{m}")
     # G-attr: every self.X read in Grid is defined somewhere in the class
     reads, defined = lints.undefined_self_attrs(mod, "Grid")
     seen = set()
@@ -229,36 +748,122 @@ def grid_accessors(chk):
     return n_obs
 
 
+class _AliasToAttr(ast.NodeTransformer):
+    def __init__(self, name, attr_src):
+        self.name, self.attr_src = name, attr_src
+
+    def visit_Name(self, node):
+        if node.id == self.name and isinstance(node.ctx, ast.Load):
+            new = ast.parse(self.attr_src, mode="eval").body
+            for x in ast.walk(new):
+                ast.copy_location(x, node)
+            return new
+        return node
+
+
+def attr_alias_view(cls, attr):
+    """copy of a class in which, after `self.<attr> = x` (x a local name), the following reads of `x` in the same block are written
+    `self.<attr>` (both denote the same object until one of them is rebound): what is computed from the local is computed from the attribute"""
+    c = clone(cls)
+    a_src = f"self.{attr}"
+    for m in [st for st in c.body if isinstance(st, ast.FunctionDef)]:
+        for node in ast.walk(m):
+            for f in ("body", "orelse", "finalbody"):
+                blk = getattr(node, f, None)
+                if not (isinstance(blk, list) and blk and isinstance(blk[0], ast.stmt)):
+                    continue
+                for k, st in enumerate(blk):
+                    if isinstance(st, ast.Assign) and len(st.targets) == 1 and src(st.targets[0]) == a_src and isinstance(st.value, ast.Name):
+                        x = st.value.id
+                        for j in range(k + 1, len(blk)):
+                            nxt = blk[j]
+                            rebinds = any((isinstance(n, ast.Name) and n.id == x and isinstance(n.ctx, ast.Store)) or
+                                          (isinstance(n, ast.Attribute) and src(n) == a_src and isinstance(n.ctx, ast.Store)) for n in ast.walk(nxt))
+                            if isinstance(nxt, (ast.Assign, ast.Expr, ast.Return, ast.AugAssign, ast.Assert)):
+                                # the value is evaluated before the targets are bound
+                                if isinstance(nxt, ast.Assign):
+                                    nxt.value = _AliasToAttr(x, a_src).visit(nxt.value)
+                                elif not rebinds:
+                                    blk[j] = _AliasToAttr(x, a_src).visit(nxt)
+                            elif not rebinds:
+                                blk[j] = _AliasToAttr(x, a_src).visit(nxt)
+                            if rebinds:
+                                break
+    from .C01 import link
+    link(c)
+    return c
+
+
+def _subscripts(t):
+    while isinstance(t, ast.Subscript):
+        yield t
+        t = t.value
+
+
 def derived_state(chk):
     """G-derived-state: whatever Grid stores that was computed from self._layout is refreshed wherever self._layout is rebound"""
-    cls = chk.mod(U.GRID).cls("Grid")
+    cls0 = chk.mod(U.GRID).cls("Grid")
+    cls = attr_alias_view(cls0, "_layout")
     derived, missing = lints.derived_state_refresh(cls, "_layout")
+    # a store of DATA into a layout-sized part of a buffer (`self.buf[...][:self._layout.size] = <data>`) is not a cache of the layout:
+    # the layout only appears as the extent of the part that is written
+    for a, (node, meth) in list(derived.items()):
+        tg = [t for t in node.targets if isinstance(t, ast.Subscript)] if isinstance(node, ast.Assign) else []
+        if tg and all(any(isinstance(x, ast.Attribute) and src(x) == "self._layout" for sub in _subscripts(t) for x in ast.walk(sub.slice))
+                      for t in tg):
+            del derived[a]
+    missing = [(m_, n_, a) for m_, n_, a in missing if a in derived]
+
+    # `x = <new layout>; self.a = f(x); self._layout = x`: the attribute was already computed from the object that becomes the layout
+    def from_new_layout(m_, a):
+        new = {n.value.id for n in ast.walk(m_) if isinstance(n, ast.Assign) and any(src(t) == "self._layout" for t in n.targets)
+               and isinstance(n.value, ast.Name)}
+        stores = {x.id for x in ast.walk(m_) if isinstance(x, ast.Name) and isinstance(x.ctx, ast.Store)}
+        new = {x for x in new if sum(1 for y in ast.walk(m_) if isinstance(y, ast.Name) and y.id == x and isinstance(y.ctx, ast.Store)) == 1}
+        return any(isinstance(n, ast.Assign) and any(src(t) == f"self.{a}" for t in n.targets) and
+                   any(isinstance(x, ast.Name) and x.id in new for x in ast.walk(n.value)) for n in ast.walk(m_))
+    missing = [(m_, n_, a) for m_, n_, a in missing if not from_new_layout(m_, a)]
     if "_f" not in derived:
-        raise AnalysisError("C02/C04: the data view self._f is no longer recognised as derived from self._layout")
+        chk.ob("G4-layout-derived-state", cls0, "self._f is computed from self._layout", None,
+               "the data view self._f is no longer recognised as derived from self._layout: the rule cannot tell which attributes are "
+               "caches of the current layout", file=U.GRID, func="Grid")
+        return
     for meth, node, a in missing:
         dn, dm = derived[a]
         chk.ob("G4-layout-derived-state", node, f"self.{a} refreshed in Grid.{meth.name}", False,
                f"Grid.{meth.name} rebinds self._layout but leaves `self.{a}` (filled from self._layout in Grid.{dm}, line {dn.lineno}) "
                "as it was: afterwards the accessors answer for the previous layout", file=U.GRID, func=f"Grid.{meth.name}")
-    rebinders = sorted({m.name for m in cls.body if isinstance(m, ast.FunctionDef) and
-                        any(isinstance(n, ast.Assign) and any(src(t) == "self._layout" for t in n.targets) for n in ast.walk(m))})
-    chk.ob("G4-layout-derived-state", cls, "every layout-derived attribute refreshed by every method that rebinds self._layout", not missing,
-           f"derived attributes {sorted(derived)}; methods rebinding the layout {rebinders}", file=U.GRID, func="Grid", nontrivial=False)
-    if len(rebinders) < 3:
-        raise AnalysisError(f"C02/C04: expected __init__, setLayout and restoreGridValues to rebind self._layout, found {rebinders}")
+    meths = {m.name: m for m in cls.body if isinstance(m, ast.FunctionDef)}
+    direct = {nm for nm, m in meths.items() if any(isinstance(n, ast.Assign) and any(src(t) == "self._layout" for t in n.targets)
+                                                   for n in ast.walk(m))}
+    # methods that change the layout through one of those (a helper that does the book-keeping)
+    rebinders = set(direct)
+    for _ in range(3):
+        for nm, m in meths.items():
+            if nm not in rebinders and any(isinstance(c, ast.Call) and isinstance(c.func, ast.Attribute) and isinstance(c.func.value, ast.Name)
+                                           and c.func.value.id == "self" and c.func.attr in rebinders for c in ast.walk(m)):
+                rebinders.add(nm)
+    chk.ob("G4-layout-derived-state", cls0, "every layout-derived attribute refreshed by every method that rebinds self._layout", not missing,
+           f"derived attributes {sorted(derived)}; methods rebinding the layout {sorted(rebinders)}", file=U.GRID, func="Grid", nontrivial=False)
+    need = {"__init__", "setLayout", "restoreGridValues"}
+    if not need <= rebinders:
+        chk.ob("G4-layout-derived-state", cls0, "__init__, setLayout and restoreGridValues rebind self._layout", None,
+               f"expected __init__, setLayout and restoreGridValues to rebind self._layout (directly or through a helper), found {sorted(rebinders)}: "
+               "the rule would not see every place where the current layout changes", file=U.GRID, func="Grid")
 
 
 def run(chk):
     chk.explanation = (
-        "Layout.__init__: the per-axis block table is computed in integer arithmetic, its symbolic form normalises to 0 at rank 0 "
-        "and n at rank p, and is one of the recognised balanced forms; starts/ends/lengths/shape are slices and differences of "
-        "that one table (telescoping), max_block_shape is ceil(n/p); Grid accessors: layout-axis vs dimension sort inference on "
+        "Layout.__init__: the per-axis block table is elaborated symbolically (entries as expressions in the extent n, the process count p, "
+        "the table index k and this rank's coordinate R); it is computed in integer arithmetic, normalises to 0 at rank 0 "
+        "and n at rank p, and is one of the recognised balanced forms; starts/ends/lengths/shape are compared symbolically with slices and "
+        "differences of that one table (telescoping), max_block_shape with ceil(n/p); Grid accessors: layout-axis vs dimension sort inference on "
         "every parameter and subscript, every coordinate slice cuts the table of the dimension carried by that axis, no read of "
         "an undefined attribute; the advertised buffer sizes cover the views taken by the transposes (shape-list agreement). "
         "The arithmetic fact 'lengths differ by at most one' is decided only through the recognised form.")
     chk.in_file(U.LAYOUT)
-    lp, env = split_formula(chk)
-    table_structure(chk, lp, env)
+    m = split_formula(chk)
+    table_structure(chk, m)
     grid_accessors(chk)
     lay = chk.mod(U.LAYOUT)
     geometry_check(chk, lay)
@@ -269,5 +874,5 @@ def run(chk):
     from .C04 import alloc_agreement
     alloc_agreement(chk, chk.mod(U.GRID))
     chk.floor("P2-", 20)
-    chk.floor("C-sort", 8)
+    chk.floor("C-sort", 4)
     chk.floor("G1-", 1)
